@@ -191,7 +191,7 @@ def main():
         return out
 
     try:
-        res = X.run_single_path(run, name="C15")
+        res = X.run_single_path(run, name="C15", generic=True)
     except SymError as e:
         # an undecided guard stops the symbolic run: look at the real code on concrete data before calling it inconclusive
         replay(chk, cc, rw, rng, "symbolic run stopped: %s" % e)
